@@ -56,18 +56,19 @@ def main():
     binp = build_j()
     # which variant of the model does the real code conform to? (pinned defects / proposed repairs)
     probe = vlib.run([binp, "probe"]).stdout.decode().split()
-    fontfix, bgfix, single = [x == "true" for x in probe]
-    ck.set("model_variant", {"FontFix": fontfix, "BgFix": bgfix, "AttrEscapes": 1 if single else 2})
-    vlib.log("real code: font-family repaired=%s background-image repaired=%s single escape=%s" % (fontfix, bgfix, single))
+    fontfix, bgfix, single = [x == "true" for x in probe[:3]]
+    level = int(probe[3])      # HTML escaping levels between sanitiser and document, measured on the rendered attribute
+    ck.set("model_variant", {"FontFix": fontfix, "BgFix": bgfix, "AttrEscapes": level})
+    vlib.log("real code: font-family repaired=%s background-image repaired=%s escaping levels of the style attribute=%d" % (fontfix, bgfix, level))
 
     def variant(text):
         return (text.replace("FontFix = FALSE", "FontFix = %s" % ("TRUE" if fontfix else "FALSE"))
                 .replace("BgFix = FALSE", "BgFix = %s" % ("TRUE" if bgfix else "FALSE"))
-                .replace("AttrEscapes = 2", "AttrEscapes = %d" % (1 if single else 2)))
+                .replace("AttrEscapes = 2", "AttrEscapes = %d" % level))
     env = vlib.goenv()
     env["C05_FONTFIX"] = "1" if fontfix else "0"
     env["C05_BGFIX"] = "1" if bgfix else "0"
-    env["C05_SINGLE_ESCAPE"] = "1" if single else "0"
+    env["C05_ATTR_ESCAPES"] = str(level)
     maxtok = 3 if thorough else 2
     text = variant(open(os.path.join(vlib.SPEC, "SinksCss_cases.cfg")).read().replace("MaxTok = 2", "MaxTok = %d" % maxtok))
     tracecfg = variant(open(os.path.join(vlib.SPEC, "SinksCss_trace.cfg")).read())
@@ -97,8 +98,14 @@ def main():
     s = vlib.harness_results(ck, p)
     if s["tlc_cases"] != len(clist):
         raise vlib.InfraError("harness consumed %d of %d cases" % (s["tlc_cases"], len(clist)))
+    def infra(msg):
+        # a tree that breaks the property is reported as such (exit 1), whatever else looks odd about it
+        if ck._nviol:
+            ck.notes.append("not raised because violations were found: " + msg[:600])
+        else:
+            raise vlib.InfraError(msg)
     if s["disagree"]:
-        raise vlib.InfraError("two-key rule (HTML level): spec RAWTEXT/attribute model and x/net/html disagree on %d real outputs, e.g. %s" % (
+        infra("two-key rule (HTML level): spec RAWTEXT/attribute model and x/net/html disagree on %d real outputs, e.g. %s" % (
             s["disagree"], json.dumps(s["disagree_examples"])[:1500]))
     if s["table_checked"] < 13 * 1112064 or s["evaluations"] < 3 * s["values"]:
         raise vlib.InfraError("coverage too small: table %d, evaluations %d for %d values" % (s["table_checked"], s["evaluations"], s["values"]))
